@@ -78,13 +78,16 @@ Section Tree.
   Hypothesis Hm : 0 <= m <= 30.
   Hypothesis HP : 1 <= P <= 2 ^ m.
   Hypothesis Ht : 0 <= target < P.
+  (* every rank's input buffer and continuation: the call stands inside a longer program (histories of calls, C03/ReduceHist.v) *)
+  Variable xin : Z -> payload.
+  Variable kk : Z -> payload -> prog.
   Notation al := c_SC_REDUCE_ALLTOALL_LEVEL.
   Notation tag := c_SC_TAG_REDUCE.
 
   Definition wd (l : Z) : Z := 2 ^ (m - l).
   Definition lft (l br : Z) : Z := br * wd l.
   Definition rep (l br : Z) : Z := sc_search_bias m l br target.
-  Definition V (l br : Z) : payload := treeval payload sym_f P m sym_leaf (Z.to_nat (m - l)) br.
+  Definition V (l br : Z) : payload := treeval payload sym_f P m xin (Z.to_nat (m - l)) br.
   Definition Sub (l br r : Z) : Prop := lft l br <= r < lft l br + wd l /\ r < P.
 
   Lemma wd_pos l : l <= m -> 0 < wd l.
@@ -118,7 +121,7 @@ Section Tree.
     cbn [treeval]. cbv zeta. unfold left_end, lft, wd.
     replace (m - (m - Z.of_nat (S (Z.to_nat (m - (l + 1)))) + 1)) with (m - (l + 1)) by lia. reflexivity.
   Qed.
-  Lemma V_leaf br : V m br = sym_leaf br.
+  Lemma V_leaf br : V m br = xin br.
   Proof. unfold V. rewrite Z.sub_diag. reflexivity. Qed.
 
   (* ---- representatives ---- *)
@@ -183,7 +186,7 @@ Section Tree.
   Variable A2A : Z -> Z -> payload -> (payload -> prog) -> prog.
   Notation RG := (rec_gen P m da target A2A).
 
-  Definition start (r : Z) : prog := RG (S (Z.to_nat m)) m r (sym_leaf r) (fun d => Ret d).
+  Definition start (r : Z) : prog := RG (S (Z.to_nat m)) m r (xin r) (kk r).
 
   Lemma rg_step fu l c data k : 0 <= l -> al <= l ->
     RG (S fu) (l + 1) c data k =
@@ -207,11 +210,11 @@ Section Tree.
   (* what the subtree can do once its representative is handed the final result v (allreduce) *)
   Definition downcap (l br : Z) (s : gs) (K : payload -> prog) : Prop :=
     forall s2 v, pr s2 (rep l br) = K v -> (forall r, Sub l br r -> r <> rep l br -> pr s2 r = pr s r) -> Subch l br s2 ->
-    exists n s3, run n s2 s3 /\ (forall r, Sub l br r -> pr s3 r = Ret v) /\
+    exists n s3, run n s2 s3 /\ (forall r, Sub l br r -> pr s3 r = kk r v) /\
       (forall r, ~ Sub l br r -> pr s3 r = pr s2 r) /\ (forall a b t, ch s3 a b t = ch s2 a b t).
   Definition after (l br : Z) (s : gs) (K : payload -> prog) : Prop :=
     (da = true -> downcap l br s K) /\
-    (da = false -> (forall v, K v = Ret v) /\ forall r, Sub l br r -> r <> rep l br -> exists o, pr s r = Ret o).
+    (da = false -> (forall v, K v = kk (rep l br) v) /\ forall r, Sub l br r -> r <> rep l br -> exists o, pr s r = kk r o).
 
   Lemma after_frame l br s s' K : (forall r, Sub l br r -> r <> rep l br -> pr s' r = pr s r) -> after l br s K -> after l br s' K.
   Proof.
@@ -351,13 +354,13 @@ Section Tree.
     induction d as [|d IH]; intros l br Hld Hal Hl Hb Hx s Hst Hch.
     - assert (l = m) as -> by lia.
       assert (Hbr : 0 <= br < P) by (unfold lft in Hx; rewrite wd_m in Hx; lia).
-      exists 0%nat, s, (fun v => Ret v). rewrite rep_leaf by exact Hbr.
+      exists 0%nat, s, (kk br). rewrite rep_leaf by exact Hbr.
       split; [apply run_nil|]. split; [|split; [reflexivity|split; [reflexivity|]]].
       + rewrite Hst by (apply Sub_leaf; lia). rewrite V_leaf. reflexivity.
       + split.
         * intros _ s2 v Hq _ _. exists 0%nat, s2. split; [apply run_nil|]. split; [|split; reflexivity].
           intros r Hr. apply Sub_leaf in Hr. destruct Hr as [-> _]. rewrite rep_leaf in Hq by exact Hbr. exact Hq.
-        * intros _. split; [reflexivity|]. intros r Hr Hne. apply Sub_leaf in Hr. rewrite rep_leaf in Hne by exact Hbr. lia.
+        * intros _. split; [intros v; rewrite rep_leaf by exact Hbr; reflexivity|]. intros r Hr Hne. apply Sub_leaf in Hr. rewrite rep_leaf in Hne by exact Hbr. lia.
     - assert (Hlm : 0 <= l < m) by lia. assert (Hal' : al <= l) by (destruct Hal; [discriminate|assumption]).
       pose proof (wd_pos (l + 1) ltac:(lia)) as Hw.
       pose proof (br_lt l br ltac:(lia) Hb Hx) as Hb2.
@@ -621,19 +624,20 @@ Section Tree.
 
   (* ---- sc_reduce: the whole system ------------------------------------------------------------------------ *)
   Theorem reduce_sched : da = false -> (forall l b d k, A2A l b d k = a2a_prog P m false target l b d k) ->
-    forall s0, (forall r, 0 <= r < P -> pr s0 r = start r) -> (forall r, ~ 0 <= r < P -> exists o, pr s0 r = Ret o) ->
+    forall s0, (forall r, 0 <= r < P -> pr s0 r = start r) ->
     (forall a b t, ch s0 a b t = []) ->
-    exists n f, run n s0 f /\ final f /\ pr f target = Ret (V 0 0) /\ (forall a b t, ch f a b t = []).
+    exists n f, run n s0 f /\ pr f target = kk target (V 0 0) /\
+      (forall r, 0 <= r < P -> r <> target -> exists o, pr f r = kk r o) /\
+      (forall r, ~ 0 <= r < P -> pr f r = pr s0 r) /\ (forall a b t, ch f a b t = []).
   Proof.
-    intros Hda HA s0 Hst Hout Hch.
+    intros Hda HA s0 Hst Hch.
     destruct (Z.eq_dec m 0) as [Hm0|Hm0].
     - (* one rank *)
       assert (P = 1) by (rewrite Hm0 in HP; change (2 ^ 0) with 1 in HP; lia). assert (target = 0) by lia.
       exists 0%nat, s0. split; [apply run_nil|].
-      assert (Hz : pr s0 0 = Ret (V 0 0)).
+      assert (Hz : pr s0 0 = kk 0 (V 0 0)).
       { rewrite Hst by lia. unfold start, V. rewrite Hm0. reflexivity. }
-      split; [|split; [replace target with 0 by lia; exact Hz|exact Hch]].
-      intros r. destruct (Z.eq_dec r 0) as [->|Hr]; [eauto|]. apply Hout. lia.
+      split; [replace target with 0 by lia; exact Hz|]. split; [intros r Hr Hne; lia|]. split; [reflexivity|exact Hch].
     - pose proof al_pos as Hal1.
       set (L := Z.min m al). assert (HL : 1 <= L <= al /\ L <= m /\ (L = m \/ al <= L)) by lia.
       destruct HL as [HL1 [HL2 HL3]].
@@ -655,7 +659,7 @@ Section Tree.
       destruct (Hnode target Ht) as [Hit HSit]. fold it in Hit, HSit.
       assert (Hit' : 0 <= it < 2 ^ L) by (apply Hns in Hit; lia).
       assert (Hrt : rep L it = target) by (apply rep_target; try lia; apply HSit).
-      assert (HKQ : forall i v, In i ns -> KQ i v = Ret v).
+      assert (HKQ : forall i v, In i ns -> KQ i v = kk (rep L i) v).
       { intros i v Hi. destruct (Hq1 i Hi) as [_ [_ Haf]]. apply (Haf Hda). }
       assert (Hprog : forall i, In i ns -> pr s1 (rep L i) =
                 if target =? rep L i then
@@ -676,7 +680,7 @@ Section Tree.
         destruct Hx as [Hx _], Hy as [Hy _]. apply Hns in Hx, Hy. apply (rep_inj L x y); lia. }
       assert (Hne_t : forall i, In i ns -> i <> it -> rep L i <> target).
       { intros i Hi Hne E. apply Hne. apply Hns in Hi. apply (rep_inj L i it); lia. }
-      destruct (sends_all (fun r => [(target, tag, V L (r / wd L))]) (fun r => Ret (V L (r / wd L))) rs Hrsd s1)
+      destruct (sends_all (fun r => [(target, tag, V L (r / wd L))]) (fun r => kk r (V L (r / wd L))) rs Hrsd s1)
         as [n2 [s2 [Hrun2 [Hp2 [Hpo2 [Hcs2 Hco2]]]]]].
       { intros r Hr. apply Hrs in Hr. destruct Hr as [i [Hi [Hne ->]]]. rewrite (Hprog i Hi).
         replace (target =? rep L i) with false by (pose proof (Hne_t i Hi Hne); lia).
@@ -703,19 +707,23 @@ Section Tree.
         - f_equal. symmetry. apply (rep_inj L j it); lia.
         - rewrite rep_exists by lia. replace (lft L j <? P) with true by lia. reflexivity. }
       exists (n1 + n2 + n3)%nat, s3. split; [eapply run_app; [eapply run_app; eauto|eauto]|].
-      assert (Hfin_t : pr s3 target = Ret (V 0 0)) by (rewrite Hp3, Hres; apply HKQ; exact Hit).
-      split; [|split; [exact Hfin_t|]].
-      + intros r. destruct (Z.eq_dec r target) as [->|Hrt']; [eauto|].
+      assert (Hfin_t : pr s3 target = kk target (V 0 0)) by (rewrite Hp3, Hres; rewrite HKQ by exact Hit; rewrite Hrt; reflexivity).
+      assert (Hrs_in : forall r, In r rs -> 0 <= r < P).
+      { intros r Hr. apply Hrs in Hr. destruct Hr as [i [Hi [_ ->]]]. apply Hns in Hi.
+        pose proof (rep_range L i ltac:(lia) ltac:(lia) ltac:(lia)) as HS. split; [|apply HS].
+        apply (Sub_nonneg L i _ ltac:(lia) ltac:(lia) HS). }
+      split; [exact Hfin_t|]. split; [|split].
+      + intros r Hr Hrt'.
         rewrite Hpo3 by exact Hrt'.
         destruct (in_dec Z.eq_dec r rs) as [Hin|Hin]; [rewrite Hp2 by exact Hin; eauto|].
         rewrite Hpo2 by exact Hin.
-        assert (Hcases : 0 <= r < P \/ ~ 0 <= r < P) by lia. destruct Hcases as [Hr|Hr].
-        * destruct (Hnode r Hr) as [Hi HS]. generalize dependent (r / wd L). intros i Hi HS.
-          destruct (Hq1 i Hi) as [_ [_ Haf]]. destruct (Haf Hda) as [_ Ho].
-          apply Ho; [exact HS|]. intros E. destruct (Z.eq_dec i it) as [E2|E2]; [apply Hrt'; rewrite E, E2; exact Hrt|].
-          apply Hin. apply Hrs. exists i. tauto.
-        * rewrite Hpo1; [apply Hout; exact Hr|]. intros i Hi HS. apply Hr. split; [|apply HS].
-          apply (Sub_nonneg L i r); [lia| |exact HS]. apply Hns in Hi. lia.
+        destruct (Hnode r Hr) as [Hi HS]. generalize dependent (r / wd L). intros i Hi HS.
+        destruct (Hq1 i Hi) as [_ [_ Haf]]. destruct (Haf Hda) as [_ Ho].
+        apply Ho; [exact HS|]. intros E. destruct (Z.eq_dec i it) as [E2|E2]; [apply Hrt'; rewrite E, E2; exact Hrt|].
+        apply Hin. apply Hrs. exists i. tauto.
+      + intros r Hr. rewrite Hpo3 by lia. rewrite Hpo2 by (intros Hx; apply Hr; apply Hrs_in; exact Hx).
+        apply Hpo1. intros i Hi HS. apply Hr. split; [|apply HS].
+        apply (Sub_nonneg L i r); [lia| |exact HS]. apply Hns in Hi. lia.
       + intros a b t.
         destruct (in_dec Z.eq_dec a rs) as [Hin|Hin].
         * pose proof Hin as Hin'. apply Hrs in Hin'. destruct Hin' as [i [Hi [Hne ->]]].
@@ -838,7 +846,7 @@ Section Tree.
     (forall i, In i ms -> pr s (rep L i) = KQ i v) ->
     (forall i r, In i ms -> Sub L i r -> r <> rep L i -> pr s r = pr sref r) ->
     (forall a b t, ch s a b t = []) ->
-    exists n s', run n s s' /\ (forall i r, In i ms -> Sub L i r -> pr s' r = Ret v) /\
+    exists n s', run n s s' /\ (forall i r, In i ms -> Sub L i r -> pr s' r = kk r v) /\
       (forall r, (forall i, In i ms -> ~ Sub L i r) -> pr s' r = pr s r) /\ (forall a b t, ch s' a b t = []).
   Proof.
     intros HL Hda. induction ms as [|i ms IH]; intros Hnd Hex s Hq Hoth Hch.
@@ -866,12 +874,12 @@ Section Tree.
 
   (* ---- sc_allreduce (window order in the all-to-all stage): the whole system ---------------------------- *)
   Theorem allreduce_sched : da = true -> (forall l b d k, A2A l b d k = a2a_prog_w l b d k) ->
-    forall s0, (forall r, 0 <= r < P -> pr s0 r = start r) -> (forall r, ~ 0 <= r < P -> exists o, pr s0 r = Ret o) ->
+    forall s0, (forall r, 0 <= r < P -> pr s0 r = start r) ->
     (forall a b t, ch s0 a b t = []) ->
-    exists n f, run n s0 f /\ (forall r, 0 <= r < P -> pr f r = Ret (V 0 0)) /\
+    exists n f, run n s0 f /\ (forall r, 0 <= r < P -> pr f r = kk r (V 0 0)) /\
       (forall r, ~ 0 <= r < P -> pr f r = pr s0 r) /\ (forall a b t, ch f a b t = []).
   Proof.
-    intros Hda HA s0 Hst Hout Hch.
+    intros Hda HA s0 Hst Hch.
     destruct (Z.eq_dec m 0) as [Hm0|Hm0].
     - assert (P = 1) by (rewrite Hm0 in HP; change (2 ^ 0) with 1 in HP; lia).
       exists 0%nat, s0. split; [apply run_nil|]. split; [|split; [reflexivity|exact Hch]].
@@ -976,13 +984,15 @@ Theorem reduce_one_schedule P target : 1 <= P <= 2 ^ 30 -> 0 <= target < P ->
     (forall a b t, ch f a b t = []).
 Proof.
   intros HP Ht. pose proof (maxlevel_le30 P HP) as Hm. pose proof (maxlevel_cover P ltac:(lia)) as [_ Hc].
-  destruct (reduce_sched P (maxlevel P) target Hm ltac:(lia) Ht false (a2a_prog P (maxlevel P) false target) eq_refl
-                         (fun _ _ _ _ => eq_refl) (red_start P target)) as [n [f [Hrun [Hfin [Hres Hch]]]]].
+  destruct (reduce_sched P (maxlevel P) target Hm ltac:(lia) Ht sym_leaf (fun _ d => Ret d) false (a2a_prog P (maxlevel P) false target) eq_refl
+                         (fun _ _ _ _ => eq_refl) (red_start P target)) as [n [f [Hrun [Hres [Hoth [Hout Hch]]]]]].
   - intros r Hr. unfold red_start. cbn [pr]. replace ((0 <=? r) && (r <? P)) with true by lia. reflexivity.
-  - intros r Hr. unfold red_start. cbn [pr]. replace ((0 <=? r) && (r <? P)) with false by lia. eauto.
   - reflexivity.
-  - exists n, f. split; [exact Hrun|]. split; [exact Hfin|]. split; [|exact Hch].
-    rewrite Hres. unfold V, sym_reduce_result, reduce_result. rewrite Z.sub_0_r. reflexivity.
+  - exists n, f. split; [exact Hrun|]. split; [|split; [|exact Hch]].
+    + intros r. destruct (Z.eq_dec r target) as [->|Hne]; [eauto|].
+      assert (Hcases : 0 <= r < P \/ ~ 0 <= r < P) by lia. destruct Hcases as [Hr|Hr]; [apply Hoth; assumption|].
+      rewrite Hout by exact Hr. unfold red_start. cbn [pr]. replace ((0 <=? r) && (r <? P)) with false by lia. eauto.
+    + rewrite Hres. unfold V, sym_reduce_result, reduce_result. rewrite Z.sub_0_r. reflexivity.
 Qed.
 
 Theorem reduce_all_schedules P target : 1 <= P <= 2 ^ 30 -> 0 <= target < P ->
@@ -1054,10 +1064,9 @@ Proof. intros r. unfold all_end. cbn [pr]. destruct ((0 <=? r) && (r <? P)); eau
 Theorem allreduce_w_one_schedule P : 1 <= P <= 2 ^ 30 -> exists n, run n (all_start_w P) (all_end P).
 Proof.
   intros HP. pose proof (maxlevel_le30 P HP) as Hm. pose proof (maxlevel_cover P ltac:(lia)) as [_ Hc].
-  destruct (allreduce_sched P (maxlevel P) 0 Hm ltac:(lia) ltac:(lia) true (a2a_prog_w P (maxlevel P) 0) eq_refl
+  destruct (allreduce_sched P (maxlevel P) 0 Hm ltac:(lia) ltac:(lia) sym_leaf (fun _ d => Ret d) true (a2a_prog_w P (maxlevel P) 0) eq_refl
                             (fun _ _ _ _ => eq_refl) (all_start_w P)) as [n [f [Hrun [Hres [Hout Hch]]]]].
   - intros r Hr. unfold all_start_w. cbn [pr]. replace ((0 <=? r) && (r <? P)) with true by lia. reflexivity.
-  - intros r Hr. unfold all_start_w. cbn [pr]. replace ((0 <=? r) && (r <? P)) with false by lia. eauto.
   - reflexivity.
   - exists n. replace (all_end P) with f; [exact Hrun|]. apply gs_eq.
     + intros r. unfold all_end. cbn [pr]. destruct ((0 <=? r) && (r <? P)) eqn:E.
